@@ -84,6 +84,10 @@ def check_reader(chk, fx, config):
                     syms = list(rv.lin.t.items())
                     good = len(syms) == 1 and syms[0][1] == 1 and rv.lin.c == 0 and syms[0][0] in exp and \
                         eng.int_info(rv.ty) == (8 * w, False)
+                    if not good and rv.lin.c == 0 and len(syms) == w and eng.int_info(rv.ty) == (8 * w, False):
+                        # assembled octet by octet: sum of 256^(w-1-k) * byte(O @ s+k)
+                        want = {"byte(%r@%r)" % (O, s + k): 256 ** (w - 1 - k) for k in range(w)}
+                        good = dict(syms) == want
                     why = "returned value %r is not the big-endian value of the next %d octet(s) %s" % (rv.lin, w, exp)
             elif item == "skip_bytes":
                 good = region_is(eng, rs, d, O, s + k, n - k)
